@@ -625,6 +625,7 @@ def typeOfS : String → Except String TypeOpt
 
 def verifyOf : String → Except String VerifyOpt
   | "absent" => pure .absent | "matching" => pure .matching | "nonMatching" => pure .nonMatching
+  | "malformed" => pure .malformed
   | s => throw s!"bad verify {s}"
 
 def jDes : Designated → Json
